@@ -15,6 +15,7 @@ C05 — Tie: what the extractor reads from the go-zero tree NOW equals what the 
 import GoZero.Extracted.C05
 import GoZero.C05.Proofs
 import GoZero.C05.ModelOpts
+import GoZero.C05.ModelWG
 namespace GoZero.C05.Tie
 open GoZero.C05
 open GoZero.Extracted.C05
@@ -367,5 +368,19 @@ theorem tie_forwarding :
 theorem tie_rescue_order :
     rescueRecoverStmts = ["for _, cleanup := range cleanups { cleanup() }",
                           "if p := recover(); p != nil { logx.ErrorStack(p) }"] := by decide
+
+/-! ## round 5c: the WorkerGroup.Start model against the source -/
+
+/-- the loop of the `WorkerGroup.Start` model IS the Go loop: the test of `WGStep.spawn / loopExit` equals the
+translated condition of `for i := 0; i < wg.workers; i++` for all values (negative and zero `workers` included), the
+model starts at `i = 0` and a spawn step is `i + 1`; the loop body is one `group.RunSafe(wg.job)` (Add before the spawn,
+Done deferred: `tie_eff_routineGroup`), followed by `group.Wait()`. -/
+theorem tie_workerGroup_model :
+    (∀ i w : Int, wgLoopTest i w = workerGroupLoopCond i w)
+    ∧ workerGroupFor = ["i := 0", "i < wg.workers", "i++"]
+    ∧ (WGSt.init 3).i = 0
+    ∧ workerGroupShape = ["call NewRoutineGroup", "for i < wg.workers {", "call group.RunSafe", "}", "call group.Wait"]
+    ∧ workerGroupFwd = ["wg.job"] := by
+  refine ⟨fun _ _ => rfl, by decide, rfl, by decide, by decide⟩
 
 end GoZero.C05.Tie
